@@ -445,7 +445,7 @@ func verify(argv []string) int {
 		reproduced := false
 		modelOut := r.Output
 		haveModel := r.Status == "sat"
-		if !haveModel && len(o.WitNames) > 0 && findReplayTemplate(*verif, o.Func) != nil {
+		if !haveModel && len(o.WitNames) > 0 && findReplayTemplate(*verif, o.Name+" "+o.Func) != nil {
 			// no model (quantified goal): look for a candidate in the quantifier-free
 			// weakening of the query; it only counts if it reproduces on the real code
 			if out, ok := groundCandidate(r.File); ok {
@@ -456,7 +456,7 @@ func verify(argv []string) int {
 		if haveModel && len(o.WitNames) > 0 {
 			wit := parseWitness(modelOut, o.WitNames)
 			rj["witness"] = wit
-			if tpl := findReplayTemplate(*verif, o.Func); tpl != nil && len(wit) > 0 {
+			if tpl := findReplayTemplate(*verif, o.Name+" "+o.Func); tpl != nil && len(wit) > 0 {
 				out, ok := runReplay(*verif, *repo, tpl, wit)
 				rj["replay_template"] = tpl
 				rj["replay_output"] = truncate(out, 6000)
@@ -466,7 +466,7 @@ func verify(argv []string) int {
 			}
 		}
 		if !reproduced {
-			if tpl := findReplayTemplate(*verif, o.Func); tpl != nil && tpl.Scenario {
+			if tpl := findReplayTemplate(*verif, o.Name+" "+o.Func); tpl != nil && tpl.Scenario {
 				out, ok := runReplay(*verif, *repo, tpl, map[string]interface{}{})
 				rj["replay_template"] = tpl
 				rj["replay_output"] = truncate(out, 6000)
@@ -655,12 +655,15 @@ func findReplayTemplate(verif, fn string) *replayTemplate {
 	if json.Unmarshal(b, &ts) != nil {
 		return nil
 	}
-	for i := range ts {
-		if ts[i].Bounded {
-			continue
-		}
-		if strings.Contains(fn, ts[i].Match) {
-			return &ts[i]
+	// entries naming one obligation (<function>#<kind>:<label>) before entries for a function
+	for _, specific := range []bool{true, false} {
+		for i := range ts {
+			if ts[i].Bounded || strings.Contains(ts[i].Match, "#") != specific {
+				continue
+			}
+			if strings.Contains(fn, ts[i].Match) {
+				return &ts[i]
+			}
 		}
 	}
 	return nil
